@@ -277,6 +277,21 @@ def scenarios(ns):
     sc["attrdict_default"] = dict(files={0: old0}, run=s_setitem("JSONAttrDict"), atomic=True)
     sc["dict_plain_nothreads"] = dict(files={0: old0}, run=s_setitem("JSONDict", wc=False, threads=False), atomic=False)
 
+    def s_same_length(cls_name, wc=False, threads=True):
+        """the new serialisation has EXACTLY the length of the file on disk (and of any other
+        size-like attribute a save might key a shortcut on): digits replaced by digits"""
+        def run(d):
+            cls = _mk(ns, cls_name)
+            if not threads:
+                cls.disable_multithreading()
+            x = cls(filename=path(d, 0), write_concern=wc)
+            x["a"] = 44
+            x["c"] = 66
+        return run
+    old_sl = {"a": 11, "b": 22, "c": 33, "pad": "z" * 30}
+    sc["dict_same_length"] = dict(files={0: old_sl}, run=s_same_length("JSONDict"), atomic=True)
+    sc["dict_same_length_write_concern_nothreads"] = dict(files={0: old_sl}, run=s_same_length("JSONDict", wc=True, threads=False), atomic=True)
+
     def s_toggle(enable_after):
         """the write mode in effect is the one at the time of the SAVE: the object is constructed
         while the class's threading support is in the other state"""
